@@ -454,6 +454,7 @@ package storage
 //@   ensures_assumed[parent.sorted; C11] result == nil && parent != nil ==> sortedKeys(parent)
 //@   ensures[parent.nosplit; C01 C11] result == nil && parent != nil && old(cnt(curNode)) + 1 < maxLeaf ==> cnt(parent) == old(cnt(parent)) &&
 //@              parent.rightOffset == old(parent.rightOffset) && (forall i int :: 0 <= i && i < cnt(parent) ==> ic(parent,i) == old(ic(parent,i)))
+//@   ensures[parent.nostamp; C04] result == nil && parent != nil && old(cnt(curNode)) + 1 < maxLeaf ==> parent.lastLSN == old(parent.lastLSN) && parent.dirty == old(parent.dirty)
 //@   ensures[root.kept; C01] parent != nil ==> b.rootOffset == old(b.rootOffset)
 //@   ensures[frame.cells; C01] forall c *internalCell :: !fresh(c) ==> c.fileOffset == old(c.fileOffset) && c.key == old(c.key)
 //@   ensures[frame.nodes; C01 C02] forall n *btreeNode :: !fresh(n) && n != curNode && n != parent ==>
@@ -496,6 +497,10 @@ package storage
 //@   modifies @treeState, @cacheState, storeState, b.rootOffset, fsOf(b).nextFreeOffset
 //@   ensures[bt] btOK(b)
 //@   ensures_assumed[ghost.fail] result != nil ==> opFailed(fsOf(b))
+// Page-wise redo: recovery skips a record when the page it names carries a stamp >= the record's LSN, and pages reach the file one
+// at a time. That test is sound only if every page the record's operation stamps is the page the record names - for an INSERT
+// record the root page the insert started from. (Fails for trees of height >= 2 and for splits: known finding C04.)
+//@   ensures[redo.page; C04] result == nil ==> forall n *btreeNode :: (fresh(n) ==> !n.dirty) && (!fresh(n) && n.lastLSN != old(n.lastLSN) ==> n.fileOffset == old(b.rootOffset))
 
 // ---- field lists and rows (C05 C06 C18) ----
 
@@ -920,9 +925,10 @@ package storage
 //@   modifies cell(walLogs), rs.fs._nextLSN, all(leafCell.valueBytes), all(leafCell.valueSize), all(btreeNode.dirty), all(btreeNode.lastLSN), storeState, elems(walLogs)
 //@   ensures[L2; C02 C04] (forall c *leafCell :: c.valueBytes == old(c.valueBytes) && c.valueSize == old(c.valueSize)) ||
 //@              (cell.pg.dirty && cell.pg.lastLSN == old(rs.fs._nextLSN) && rs.fs._nextLSN == old(rs.fs._nextLSN) + 1)
-//@   ensures[L3; C02] len(walLogs) == old(len(walLogs)) || (len(walLogs) == old(len(walLogs)) + 1 &&
+//@   ensures[L3; C02 C04] len(walLogs) == old(len(walLogs)) || (len(walLogs) == old(len(walLogs)) + 1 &&
 //@              walLogs[len(walLogs)-1].LSN == old(rs.fs._nextLSN) && walLogs[len(walLogs)-1].pageID == cell.pg.fileOffset &&
 //@              walLogs[len(walLogs)-1].cellID == cell.key && walLogs[len(walLogs)-1].WALOp == OpUpdate)
+//@   ensures[redo.single; C04] forall n *btreeNode :: n != cell.pg ==> n.lastLSN == old(n.lastLSN) && n.dirty == old(n.dirty)
 //@   ensures[err.frame; C14] result1 != nil ==> rs.fs._nextLSN == old(rs.fs._nextLSN) && len(walLogs) == old(len(walLogs)) &&
 //@              (forall c *leafCell :: c.valueBytes == old(c.valueBytes) && c.valueSize == old(c.valueSize)) &&
 //@              (forall n *btreeNode :: n.dirty == old(n.dirty) && n.lastLSN == old(n.lastLSN))
@@ -946,9 +952,10 @@ package storage
 //@   modifies cell(walLogs), cell(found), rs.fs._nextLSN, all(leafCell.valueBytes), all(leafCell.valueSize), all(btreeNode.dirty), all(btreeNode.lastLSN), storeState, elems(walLogs)
 //@   ensures[L2; C02 C04] (forall c *leafCell :: c.valueBytes == old(c.valueBytes) && c.valueSize == old(c.valueSize)) ||
 //@              (cell.pg.dirty && cell.pg.lastLSN == old(rs.fs._nextLSN) && rs.fs._nextLSN == old(rs.fs._nextLSN) + 1)
-//@   ensures[L3; C02] len(walLogs) == old(len(walLogs)) || (len(walLogs) == old(len(walLogs)) + 1 &&
+//@   ensures[L3; C02 C04] len(walLogs) == old(len(walLogs)) || (len(walLogs) == old(len(walLogs)) + 1 &&
 //@              walLogs[len(walLogs)-1].LSN == old(rs.fs._nextLSN) && walLogs[len(walLogs)-1].pageID == cell.pg.fileOffset &&
 //@              walLogs[len(walLogs)-1].cellID == cell.key && walLogs[len(walLogs)-1].WALOp == OpUpdate)
+//@   ensures[redo.single; C04] forall n *btreeNode :: n != cell.pg ==> n.lastLSN == old(n.lastLSN) && n.dirty == old(n.dirty)
 //@   ensures[err.frame; C14] result1 != nil ==> rs.fs._nextLSN == old(rs.fs._nextLSN) && len(walLogs) == old(len(walLogs)) &&
 //@              (forall c *leafCell :: c.valueBytes == old(c.valueBytes) && c.valueSize == old(c.valueSize)) &&
 //@              (forall n *btreeNode :: n.dirty == old(n.dirty) && n.lastLSN == old(n.lastLSN))
@@ -986,13 +993,13 @@ package storage
 //@   assume[rowid-no-wrap] fs.lastKey + len(w) <= 4294967295
 //@   assume[lsn-no-wrap] forall i int :: 0 <= i && i < len(w) ==> w[i].LSN < 18446744073709551615
 //@   modifies @treeState, @cacheState, storeState, fs._nextLSN, fs.lastKey, fs.nextFreeOffset, txn, written, all(BTree.rootOffset), fdata, fsize
-//@   ensures[L8; C02] fs._nextLSN >= old(fs._nextLSN)
-//@   ensures[L7; C02 C03] result == nil ==> fs.lastKey >= old(fs.lastKey)
+//@   ensures[L8; C02 C04] fs._nextLSN >= old(fs._nextLSN)
+//@   ensures[L7; C02 C03 C04] result == nil ==> fs.lastKey >= old(fs.lastKey)
 //@   ensures[unlock; C13] txn == 0
 //@   ensures[abort.onlystore; C02 C03 C04] (forall i int :: 0 <= i && i < len(w) ==> w[i].WALOp != OpDelete) && result != nil ==> opFailed(fs)
 //@   loop 1 invariant fs != nil && cacheOK(fs) && !fs.autoFlushCache && txn == 0 && logWF(w)
 //@   loop 1 invariant [L8; C02] fs._nextLSN >= old(fs._nextLSN)
-//@   loop 1 invariant [L8.next; C02] forall i int :: 0 <= i && i <= rangeindex ==> w[i].LSN < fs._nextLSN
+//@   loop 1 invariant [L8.next; C02 C04] forall i int :: 0 <= i && i <= rangeindex ==> w[i].LSN < fs._nextLSN
 //@   loop 1 invariant [L7; C02 C03] fs.lastKey >= old(fs.lastKey) && fs.lastKey <= old(fs.lastKey) + rangeindex + 1
 
 // ---- page flush and table creation under the lock typestate (C13, C04, C14) ----
@@ -1003,7 +1010,7 @@ package storage
 //@ func (f *fileStore) update(node *btreeNode) error
 //@   props C04 C12 C13 C16
 //@   requires fsExcl(f) && cacheOK(f) && node != nil
-//@   requires[enc] encodable(node) && node.fileOffset <= 9223372036854771711
+//@   requires[enc] encodable(node) && 4096 <= node.fileOffset && node.fileOffset <= 9223372036854771711
 //@   modifies listLen(f.cache.list), listAt(f.cache.list), listPos, listOf, mapof(f.cache.cache), all(cacheEntry.val), storeState, written(node), fdata(f.file), fsize(f.file)
 //@   ensures cacheOK(f)
 //@   ensures_assumed[ghost.written] result == nil ==> written(node)
@@ -1023,14 +1030,16 @@ package storage
 //@   props C04 C13 C16
 //@   reveal lruInv
 //@   requires txn == 0 && cacheOK(f)
-//@   assumepre (*fileStore).update.enc A-CACHE: every page in the cache is a node the codec can represent, at an offset below 2^63 (pages enter the cache from fetch - trusted nodeOK - or freshly created, and every verified mutator re-establishes nodeOK for the pages it touches; the cache-wide statement is not proved)
+//@   assumepre (*fileStore).update.enc A-CACHE: every page in the cache is a node the codec can represent, at an offset behind the header page and below 2^63 (pages enter the cache from fetch - trusted nodeOK - or freshly created, and every verified mutator re-establishes nodeOK for the pages it touches; the cache-wide statement is not proved)
 //@   modifies txn, all(btreeNode.dirty), @cacheState, storeState, written, fdata(f.file), fsize(f.file)
 //@   ensures[unlock; C13] txn == 0
 //@   ensures[cache] cacheOK(f)
 //@   ensures[clean; C04 C16] forall n *btreeNode :: written(n) && !old(written(n)) ==> !n.dirty
+//@   ensures[header.saved; C04] result == nil ==> headerIs(f)
 //@   ensures_assumed[ghost.fail] result != nil ==> opFailed(f)
 //@   loop 1 invariant txn == 2 && cacheOK(f)
 //@   loop 1 invariant [clean; C04 C16] forall n *btreeNode :: written(n) && !old(written(n)) ==> !n.dirty
+//@   loop 1 invariant [header.last; C04] forall k int :: 0 <= k && k < 28 ==> fdata(f.file, k) == old(fdata(f.file, k))
 
 //@ func (rs *RelationService) createPage() (*btreeNode, error)
 //@   props C01 C13
@@ -1077,6 +1086,7 @@ package storage
 //@   ensures[rs] rsOK(rs) && txn == 1
 //@   ensures[L1; C02] rs.fs._nextLSN == old(rs.fs._nextLSN) + len(result0)
 //@   ensures[L3; C02] err == nil ==> len(result0) == 1 && result0[0].LSN == old(rs.fs._nextLSN) && result0[0].cellID == rowID && result0[0].WALOp == OpDelete
+//@   ensures[redo.page; C02 C04] err == nil ==> forall n *btreeNode :: n.lastLSN != old(n.lastLSN) || n.dirty != old(n.dirty) ==> n.fileOffset == result0[0].pageID && n.lastLSN == result0[0].LSN && n.dirty
 //@   ensures[err; C14] err != nil ==> len(result0) == 0 && rs.fs._nextLSN == old(rs.fs._nextLSN)
 //@   ensures[err.frame; C14] err != nil ==> forall c *leafCell :: c.deleted == old(c.deleted)
 
